@@ -510,6 +510,10 @@ func callSSA(i *interpreter, caller *frame, callpos token.Pos, fn *ssa.Function,
 			return nil
 		}
 		if !i.m.interpretable(fn) {
+			// generic bridge: the real function on concrete(-ised) arguments
+			if ext := nativeBridge(name); ext != nil {
+				return ext(fr, args)
+			}
 			panic(pathAbort{"unsupported", "no intrinsic for external function " + name})
 		}
 		if fn.Blocks == nil {
